@@ -29,6 +29,7 @@ def parseUnit (s : String) : Option StartTLS.Unit :=
   else if s == "P" then some .proceed
   else if s == "F" then some .failure
   else if s == "E" then some .streamErr
+  else if s == "D" then some .streamErrD
   else if s == "G" then some .tlsOther
   else if s == "O" then some .foreign
   else if s == "W" then some .space
@@ -51,7 +52,9 @@ def parseOracle (s : String) : Option (Nat × NegRes) :=
   | _ => none
 
 def parsePItem (s : String) : Option PItem :=
-  if s == "J" then some .junk else (parseUnit s).map .unit
+  -- C1 / C2: the peer answers the ClientHello with a certificate the client must refuse (for
+  -- another name / of an unknown CA): like junk, bytes that make no handshake the client accepts
+  if s == "J" || s == "C1" || s == "C2" then some .junk else (parseUnit s).map .unit
 
 def showEv : Ev → Option String
   | .wHdr t => some (if t then "H" else "h")
